@@ -6,7 +6,7 @@
    carries the output the producer emitted at s, negative entries carry the default output, and the row's output is f of exactly those: no output was
    overwritten before its last scheduled reader. *)
 From Coq Require Import List Arith ZArith Bool.
-From Rex Require Import CompiledModel RunnerSym CheckSym BufferSpec.
+From Rex Require Import CompiledModel RunnerSym CheckSym BufferSpec Replay BufferSufficient.
 Open Scope Z_scope.
 
 (* a passed symbolic check implies the dataflow equations for the real run, for every step function and payload type *)
@@ -48,4 +48,22 @@ Print Assumptions C08_suffix_min_le.
 Theorem C08_prefix_max_from_ge : forall (l : list Z) (acc : Z) (i j : nat) (d : Z), (j <= i < length l)%nat -> nth j l d <= nth i (prefix_max_from acc l) d /\ acc <= nth i (prefix_max_from acc l) d.
 Proof. exact @prefix_max_from_ge. Qed.
 Print Assumptions C08_prefix_max_from_ge.
+(* C08 clause 'an output is never overwritten before its last scheduled reader has run', closed: for EVERY instance whose schedule passes check_schedule and the five structural facts extra_ok (slot generations in range; only supervisor slots in the last generation; the supervisor's cells run; slot kinds and senders are nodes), ring buffers at least as large as buffer_need (the model of Timings.get_buffer_sizes) make the symbolic run pass check_sym for every horizon - hence, by C08_runner_dataflow, every window read in the real run returns the scheduled producer's payload *)
+Theorem C08_buffer_sufficient : forall (I : inst) (sizes : list Z) (n : nat), check_schedule I = true -> extra_ok I = true -> (forall c : nat, (c < length (i_conns I))%nat -> buffer_need I c <= size_of sizes (k_out (conn I c))) -> (n <= i_nparts I)%nat -> check_sym I sizes 0 n = true.
+Proof. exact @buffer_sufficient. Qed.
+Print Assumptions C08_buffer_sufficient.
 
+(* non-vacuity: ex_inst satisfies the hypotheses; one slot less fails *)
+Theorem C08_buffer_sufficient_hyps_satisfiable : check_schedule ex_inst = true /\ extra_ok ex_inst = true /\ buffer_need ex_inst 0 = 2 /\ size_of (2 :: 1 :: nil) (k_out (conn ex_inst 0)) = 2 /\ check_sym ex_inst (1 :: 1 :: nil) 0 3 = false.
+Proof. exact @ex_hyps. Qed.
+Print Assumptions C08_buffer_sufficient_hyps_satisfiable.
+
+(* the theorem applied to ex_inst *)
+Theorem C08_buffer_sufficient_instance : check_sym ex_inst (2 :: 1 :: nil) 0 3 = true.
+Proof. exact @ex_buffer_sufficient. Qed.
+Print Assumptions C08_buffer_sufficient_instance.
+
+(* extra_ok's 'supervisor alone in the last generation' is necessary: a sender sharing the supervisor's generation makes buffer_need one too small for the runner (check_schedule accepts, check_sym rejects) *)
+Theorem C08_last_generation_needed : check_schedule cx_inst = true /\ buffer_need cx_inst 0 = 1 /\ extra_ok cx_inst = false /\ check_sym cx_inst (1 :: 1 :: nil) 0 3 = false /\ check_sym cx_inst (2 :: 1 :: nil) 0 3 = true.
+Proof. exact @cx_last_generation. Qed.
+Print Assumptions C08_last_generation_needed.
